@@ -97,3 +97,10 @@ def rules(t):
     out.append(W3.ack_lookup_range(t, "C08.i"))
     out.append(W3.decoder_append_only(t, "C08.j"))
     return out
+
+_rules_c08_w5 = rules
+def rules(t):
+    import rules.shared as shared
+    out = _rules_c08_w5(t)
+    shared.share(t, out, "C08.k", "send-side memory is given back only together with the departure of the whole message from unacked_messages, by that message's own length (not slice by slice)", "C09", ("C09.i",))
+    return out
